@@ -246,7 +246,15 @@ func (st *StateTransition) TransitionDb() (*core.ExecutionResult, error) {
 
 	// Set up the initial access list.
 	if rules.IsBerlin {
-		activePrecompiles := append(corevm.ActivePrecompiles(rules), st.evm.GetCustomPrecompiledContractsAddress()...)
+		activePrecompiles := corevm.ActivePrecompiles(rules)
+		for _, customPrecompileAddr := range st.evm.GetCustomPrecompiledContractsAddress() {
+			// the list provided by the EVM is padded with zero-valued entries, one per contract, and the zero address
+			// can never be a custom precompiled contract: without this check the zero address would be warm
+			if customPrecompileAddr == (common.Address{}) {
+				continue
+			}
+			activePrecompiles = append(activePrecompiles, customPrecompileAddr)
+		}
 		st.state.PrepareAccessList(msg.From(), msg.To(), activePrecompiles, msg.AccessList())
 	}
 	var (
